@@ -251,6 +251,8 @@ type quantAssump struct {
 	body     *sx
 	patterns []*sx
 	orig     string
+	extra    bool // hoisted from an assertion that is also kept as it is
+	multi    map[string]*sx // multi-pattern: one single-variable pattern per variable (when no single term mentions all variables)
 }
 
 // groundInstantiate takes assumption texts and the goal text; returns new assumption texts where top-level
@@ -287,7 +289,10 @@ func isLiteral(s *sx) bool {
 }
 
 // skolemizeGoal: a goal (forall (x..) body) is proved by proving body for fresh constants.
-func skolemizeGoal(goal string) (string, []string) {
+func skolemizeGoalMode(goal string, extended bool) (string, []string) {
+	if extended {
+		return skolemizeGoal(goal)
+	}
 	es := parseSx(goal)
 	if len(es) != 1 {
 		return goal, nil
@@ -308,7 +313,65 @@ func skolemizeGoal(goal string) (string, []string) {
 	return e.String(), decls
 }
 
-func groundInstantiate(assumps []string, goal string, rounds int, maxInst int) (out []string, dropped int, instances int, newGoal string) {
+func skolemizeGoal(goal string) (string, []string) {
+	es := parseSx(goal)
+	if len(es) != 1 {
+		return goal, nil
+	}
+	var decls []string
+	n := 0
+	var sk func(e *sx) *sx
+	// universally quantified subformulas in positive position of the goal (top level, consequents of implications,
+	// conjuncts) become fresh constants
+	sk = func(e *sx) *sx {
+		if e.isAtom() || len(e.kids) == 0 || !e.kids[0].isAtom() {
+			return e
+		}
+		switch e.kids[0].atom {
+		case "forall":
+			if len(e.kids) != 3 {
+				return e
+			}
+			bind := map[string]*sx{}
+			for _, v := range e.kids[1].kids {
+				if len(v.kids) == 2 {
+					n++
+					name := "sk!" + strings.ReplaceAll(v.kids[0].atom, "!", "_")
+					if n > 1 {
+						name += "_" + strconvItoa(n)
+					}
+					bind[v.kids[0].atom] = &sx{atom: name}
+					decls = append(decls, "(declare-const "+name+" "+v.kids[1].String()+")")
+				}
+			}
+			return sk(sxSubst(e.kids[2], bind))
+		case "=>":
+			if len(e.kids) >= 3 {
+				k := append([]*sx{}, e.kids...)
+				k[len(k)-1] = sk(k[len(k)-1])
+				return &sx{kids: k}
+			}
+		case "and":
+			k := []*sx{e.kids[0]}
+			for _, c := range e.kids[1:] {
+				k = append(k, sk(c))
+			}
+			return &sx{kids: k}
+		}
+		return e
+	}
+	r := sk(es[0])
+	return r.String(), decls
+}
+
+func groundInstantiateMode(assumps []string, goal string, rounds int, maxInst int, extended bool) ([]string, int, int, string) {
+	if extended {
+		return groundInstantiate(assumps, goal, 5, 800, true)
+	}
+	return groundInstantiate(assumps, goal, rounds, maxInst, false)
+}
+
+func groundInstantiate(assumps []string, goal string, rounds int, maxInst int, extended bool) (out []string, dropped int, instances int, newGoal string) {
 	// rewrite by literal equalities first
 	eqs := map[string]string{}
 	for _, a := range assumps {
@@ -342,6 +405,78 @@ func groundInstantiate(assumps []string, goal string, rounds int, maxInst int) (
 		assumps = na
 		goal = rewrite(goal)
 	}
+	// select-over-store simplification along the definitions of local cell arrays ((= A (store B i v)) facts): makes the
+	// value of a captured / address-taken local syntactically equal to the term it was initialised with, so that the
+	// matching below (which is purely syntactic) sees through closures' cells
+	{
+		defs := map[string]*sx{}
+		for _, a := range assumps {
+			es := parseSx(a)
+			if len(es) == 1 && !es[0].isAtom() && len(es[0].kids) == 3 && es[0].kids[0].atom == "=" && es[0].kids[1].isAtom() && !es[0].kids[2].isAtom() &&
+				len(es[0].kids[2].kids) == 4 && es[0].kids[2].kids[0].atom == "store" {
+				defs[es[0].kids[1].atom] = es[0].kids[2]
+			}
+		}
+		if len(defs) > 0 && extended {
+			distinctNew := func(a, b *sx) bool {
+				return a.isAtom() && b.isAtom() && a.atom != b.atom && strings.HasPrefix(a.atom, "new_") && strings.HasPrefix(b.atom, "new_")
+			}
+			var simp func(t *sx) *sx
+			simp = func(t *sx) *sx {
+				if t.isAtom() {
+					return t
+				}
+				n := &sx{kids: make([]*sx, len(t.kids))}
+				for i, k := range t.kids {
+					n.kids[i] = simp(k)
+				}
+				if len(n.kids) == 3 && n.kids[0].isAtom() && n.kids[0].atom == "select" {
+					arr, idx := n.kids[1], n.kids[2]
+					for steps := 0; steps < 40; steps++ {
+						if arr.isAtom() {
+							d, ok := defs[arr.atom]
+							if !ok {
+								break
+							}
+							arr = d
+						}
+						if !arr.isAtom() && len(arr.kids) == 4 && arr.kids[0].atom == "store" {
+							j := arr.kids[2]
+							if j.String() == idx.String() {
+								return simp(arr.kids[3])
+							}
+							if distinctNew(idx, j) {
+								arr = arr.kids[1]
+								continue
+							}
+						}
+						break
+					}
+				}
+				return n
+			}
+			var na []string
+			for _, a := range assumps {
+				es := parseSx(a)
+				if len(es) != 1 {
+					na = append(na, a)
+					continue
+				}
+				// keep the defining equalities themselves as they are
+				if !es[0].isAtom() && len(es[0].kids) == 3 && es[0].kids[0].atom == "=" && es[0].kids[1].isAtom() {
+					if _, isDef := defs[es[0].kids[1].atom]; isDef {
+						na = append(na, a)
+						continue
+					}
+				}
+				na = append(na, simp(es[0]).String())
+			}
+			assumps = na
+			if gs := parseSx(goal); len(gs) == 1 {
+				goal = simp(gs[0]).String()
+			}
+		}
+	}
 	var quants []*quantAssump
 	ground := map[string]*sx{}
 	var plainTexts []string
@@ -351,38 +486,29 @@ func groundInstantiate(assumps []string, goal string, rounds int, maxInst int) (
 			plainTexts = append(plainTexts, a)
 			continue
 		}
-		e := es[0]
-		if !e.isAtom() && len(e.kids) == 3 && e.kids[0].isAtom() && e.kids[0].atom == "forall" {
-			q := &quantAssump{vars: map[string]bool{}, body: e.kids[2], orig: a}
-			for _, v := range e.kids[1].kids {
-				if len(v.kids) > 0 {
-					q.vars[v.kids[0].atom] = true
-					q.varOrder = append(q.varOrder, v.kids[0].atom)
-				}
-			}
-			var cands []*sx
-			candidatePatterns(q.body, q.vars, &cands)
-			// keep distinct patterns, smallest first, at most 4
-			seen := map[string]bool{}
-			sort.SliceStable(cands, func(i, j int) bool { return sxSize(cands[i]) < sxSize(cands[j]) })
-			for _, c := range cands {
-				s := c.String()
-				if seen[s] || len(q.patterns) >= 4 {
-					continue
-				}
-				// a pattern that is just (select VAR VAR) or has a variable head is useless
-				seen[s] = true
-				q.patterns = append(q.patterns, c)
-			}
-			if len(q.patterns) == 0 {
+		top := es[0]
+		if !top.isAtom() && len(top.kids) == 3 && top.kids[0].isAtom() && top.kids[0].atom == "forall" {
+			if q := mkQuantAssump(top, a, extended); q != nil {
+				quants = append(quants, q)
+			} else {
 				plainTexts = append(plainTexts, a) // keep quantified
-				continue
 			}
-			quants = append(quants, q)
 			continue
 		}
+		// not a top-level quantifier: the assertion is kept as it is (with any nested quantifiers), and universally
+		// quantified parts nested in conjunctions / consequents are additionally offered for instantiation
 		plainTexts = append(plainTexts, a)
-		collectGround(e, map[string]bool{}, ground)
+		collectGround(top, map[string]bool{}, ground)
+		if hasQuant(top) && extended {
+			for _, e := range hoistForalls(top) {
+				if !e.isAtom() && len(e.kids) == 3 && e.kids[0].isAtom() && e.kids[0].atom == "forall" {
+					if q := mkQuantAssump(e, e.String(), extended); q != nil {
+						q.extra = true
+						quants = append(quants, q)
+					}
+				}
+			}
+		}
 	}
 	for _, g := range parseSx(goal) {
 		collectGround(g, map[string]bool{}, ground)
@@ -391,6 +517,7 @@ func groundInstantiate(assumps []string, goal string, rounds int, maxInst int) (
 	var insts []string
 	for r := 0; r < rounds; r++ {
 		var newTerms []*sx
+		newQuants := 0
 		// deterministic order
 		var keys []string
 		for k := range ground {
@@ -398,6 +525,53 @@ func groundInstantiate(assumps []string, goal string, rounds int, maxInst int) (
 		}
 		sort.Strings(keys)
 		for qi, q := range quants {
+			if q.multi != nil {
+				// matches per variable
+				per := map[string][]*sx{}
+				for _, vn := range q.varOrder {
+					seenV := map[string]bool{}
+					for _, k := range keys {
+						bind := map[string]*sx{}
+						if sxMatch(q.multi[vn], ground[k], map[string]bool{vn: true}, bind) && bind[vn] != nil {
+							if !seenV[bind[vn].String()] && len(per[vn]) < 6 {
+								seenV[bind[vn].String()] = true
+								per[vn] = append(per[vn], bind[vn])
+							}
+						}
+					}
+				}
+				var rec func(i int, bind map[string]*sx)
+				rec = func(i int, bind map[string]*sx) {
+					if len(insts) >= maxInst {
+						return
+					}
+					if i == len(q.varOrder) {
+						var sig strings.Builder
+						sig.WriteString("M" + strconvItoa(qi))
+						for _, v := range q.varOrder {
+							sig.WriteString("|" + bind[v].String())
+						}
+						if done[sig.String()] {
+							return
+						}
+						done[sig.String()] = true
+						b2 := map[string]*sx{}
+						for k, v := range bind {
+							b2[k] = v
+						}
+						inst := sxSubst(q.body, b2)
+						insts = append(insts, inst.String())
+						newTerms = append(newTerms, inst)
+						return
+					}
+					for _, t := range per[q.varOrder[i]] {
+						bind[q.varOrder[i]] = t
+						rec(i+1, bind)
+					}
+				}
+				rec(0, map[string]*sx{})
+				continue
+			}
 			for _, p := range q.patterns {
 				for _, k := range keys {
 					t := ground[k]
@@ -416,15 +590,30 @@ func groundInstantiate(assumps []string, goal string, rounds int, maxInst int) (
 					}
 					done[sig.String()] = true
 					inst := sxSubst(q.body, bind)
-					insts = append(insts, inst.String())
-					newTerms = append(newTerms, inst)
+					// universally quantified parts of the instance (nested in conjunctions / consequents) are hoisted to
+					// the top and take part in the following rounds
+					parts := []*sx{inst}
+					if extended {
+						parts = hoistForalls(inst)
+					}
+					for _, part := range parts {
+						if extended && !part.isAtom() && len(part.kids) == 3 && part.kids[0].isAtom() && part.kids[0].atom == "forall" {
+							if nq := mkQuantAssump(part, part.String(), extended); nq != nil && len(quants) < 400 {
+								quants = append(quants, nq)
+								newQuants++
+								continue
+							}
+						}
+						insts = append(insts, part.String())
+						newTerms = append(newTerms, part)
+					}
 					if len(insts) >= maxInst {
 						goto finished
 					}
 				}
 			}
 		}
-		if len(newTerms) == 0 {
+		if len(newTerms) == 0 && newQuants == 0 {
 			break
 		}
 		for _, t := range newTerms {
@@ -435,6 +624,90 @@ finished:
 	out = append(out, plainTexts...)
 	out = append(out, insts...)
 	return out, len(quants), len(insts), goal
+}
+
+func mkQuantAssump(e *sx, orig string, multiPatterns bool) *quantAssump {
+	q := &quantAssump{vars: map[string]bool{}, body: e.kids[2], orig: orig}
+	for _, v := range e.kids[1].kids {
+		if len(v.kids) > 0 {
+			q.vars[v.kids[0].atom] = true
+			q.varOrder = append(q.varOrder, v.kids[0].atom)
+		}
+	}
+	var cands []*sx
+	candidatePatterns(q.body, q.vars, &cands)
+	// keep distinct patterns, smallest first, at most 4
+	seen := map[string]bool{}
+	sort.SliceStable(cands, func(i, j int) bool { return sxSize(cands[i]) < sxSize(cands[j]) })
+	for _, c := range cands {
+		s := c.String()
+		if seen[s] || len(q.patterns) >= 4 {
+			continue
+		}
+		seen[s] = true
+		q.patterns = append(q.patterns, c)
+	}
+	if len(q.patterns) == 0 {
+		// no single term mentions all variables: one pattern per variable, instantiated over the cross product of matches
+		if len(q.varOrder) >= 2 && len(q.varOrder) <= 3 && multiPatterns {
+			multi := map[string]*sx{}
+			for _, vn := range q.varOrder {
+				one := map[string]bool{vn: true}
+				var cs []*sx
+				candidatePatterns(q.body, one, &cs)
+				var best *sx
+				for _, c := range cs {
+					// the pattern must not mention the other quantified variables
+					other := map[string]bool{}
+					varsIn(c, q.vars, other)
+					if len(other) != 1 {
+						continue
+					}
+					if best == nil || sxSize(c) < sxSize(best) {
+						best = c
+					}
+				}
+				if best == nil {
+					return nil
+				}
+				multi[vn] = best
+			}
+			q.multi = multi
+			return q
+		}
+		return nil
+	}
+	return q
+}
+
+// hoistForalls splits a formula into top-level parts, moving universal quantifiers that sit in conjuncts or in the
+// consequent of an implication to the top: (=> G (and A (forall V B))) becomes (=> G A) and (forall V (=> G B)).
+func hoistForalls(e *sx) []*sx {
+	if e.isAtom() || len(e.kids) == 0 || !e.kids[0].isAtom() {
+		return []*sx{e}
+	}
+	switch e.kids[0].atom {
+	case "and":
+		var out []*sx
+		for _, c := range e.kids[1:] {
+			out = append(out, hoistForalls(c)...)
+		}
+		return out
+	case "=>":
+		if len(e.kids) == 3 && hasQuant(e.kids[2]) {
+			var out []*sx
+			g := e.kids[1]
+			for _, p := range hoistForalls(e.kids[2]) {
+				if !p.isAtom() && len(p.kids) == 3 && p.kids[0].isAtom() && p.kids[0].atom == "forall" {
+					out = append(out, &sx{kids: []*sx{p.kids[0], p.kids[1], {kids: []*sx{{atom: "=>"}, g, p.kids[2]}}}})
+				} else {
+					out = append(out, &sx{kids: []*sx{{atom: "=>"}, g, p}})
+				}
+			}
+			return out
+		}
+	}
+	return []*sx{e}
 }
 
 func strconvItoa(i int) string {
